@@ -301,10 +301,15 @@ def exec_solo(jobs, cfg, order_seed):
 def compare(sres, solo):
     """O2: every completed call equals its solo twin bit for bit."""
     v = []
-    from .snap import is_finite_tree
+    from .snap import is_finite_tree, is_busy
     nonfinite = 0
     for rec in sres['records']:
         if rec['outcome'] not in ('ok', 'exc'):
+            continue
+        if is_busy(rec['res']) or is_busy(rec['recv_post']):
+            # snapshot taken while a repr of the same lists was in progress on the thread: unusable
+            sres['counters']['snapshots_unusable_repr_in_progress'] = \
+                sres['counters'].get('snapshots_unusable_repr_in_progress', 0) + 1
             continue
         s = solo.get(rec['id'])
         if s is None:
